@@ -266,18 +266,33 @@ inductive NewCidRes where
   | accepted (s : Remote)       -- `Ok(Some(token))`
   | panic (site : String)
 
-/-- `recv_new_cid_frame`.  `fixed = false`: the pinned tree (only `seq - retire_prior_to > limit` is tested);
-`fixed = true`: with `repo_patches/fix-C14-remote-limit.diff` (the number of active ids is counted after the frame
-has been processed). -/
-def recvNewCid (fixed : Bool) (s : Remote) (seq rpt : Nat) (cid : Cid) : NewCidRes :=
-  if seq - rpt > s.limit then .errLimit s
+/-- which `recv_new_cid_frame` is modelled:
+* `pinned`  — the pinned tree: only the pre-test `seq - retire_prior_to > limit` on the frame's two fields;
+* `counted` — with `repo_patches/fix-C14-remote-limit.diff`: the pre-test, and the number of active ids is counted
+  after the frame has been processed;
+* `exact`   — with `repo_patches/fix-C14-legal-issue.diff` on top: the count alone decides (no pre-test). -/
+inductive Tree where
+  | pinned | counted | exact
+  deriving DecidableEq, Repr
+
+def Tree.pre : Tree → Bool
+  | .exact => false
+  | _ => true
+
+def Tree.count : Tree → Bool
+  | .pinned => false
+  | _ => true
+
+/-- `recv_new_cid_frame` -/
+def recvNewCid (fixed : Tree) (s : Remote) (seq rpt : Nat) (cid : Cid) : NewCidRes :=
+  if fixed.pre && seq - rpt > s.limit then .errLimit s
   else if seq < s.coff then .discarded
   else
     let (s1, _) := s.insertCid seq cid
     match s1.retirePriorTo rpt with
     | .panic site => .panic site
     | .ok s2 =>
-      if fixed && s2.activeCount > s2.limit then .errLimit s2
+      if fixed.count && s2.activeCount > s2.limit then .errLimit s2
       else .accepted s2.arrange
 
 inductive InitRes where
@@ -337,7 +352,7 @@ structure RRun where
 
 namespace RRun
 
-def step (fixed : Bool) (r : RRun) (o : ROp) : RRun :=
+def step (fixed : Remote.Tree) (r : RRun) (o : ROp) : RRun :=
   if r.dead || r.closed then r else
   match o with
   | .apply => { r with s := r.s.apply.1 }
@@ -358,7 +373,7 @@ def step (fixed : Bool) (r : RRun) (o : ROp) : RRun :=
     | none => { r with dead := true }
   | .retireCell c => { r with s := r.s.retireCell c }
 
-def run (fixed : Bool) (limit : Nat) (ops : List ROp) : RRun :=
+def run (fixed : Remote.Tree) (limit : Nat) (ops : List ROp) : RRun :=
   ops.foldl (step fixed) { s := Remote.init limit }
 
 end RRun
